@@ -378,7 +378,11 @@ class SymReal(SymNum):
         raise HarnessError("float() forced on a symbolic real (would sample it)")
 
     def __int__(self):
-        raise HarnessError("int() forced on a symbolic real; use floor()/ceil()")
+        # int(float) truncates toward zero; the integer is concretised by forking like any other integer
+        t = z3.simplify(self.t)
+        if z3.is_app_of(t, z3.Z3_OP_TO_REAL):
+            return ctx().concretize(SymInt(t.arg(0)))
+        return ctx().concretize(SymInt(z3.If(t >= 0, z3.ToInt(t), -z3.ToInt(-t))))
 
     def __round__(self, n=None):
         raise HarnessError("round() on a symbolic real")
@@ -507,6 +511,7 @@ class Options:
     max_concretize: int = 64
     path_timeout_s: int = 300  # wall-clock cap per path (a concrete non-terminating loop ends as inconclusive)
     lazy_nonlinear: bool = True
+    merge_minmax: bool = False  # np.min/np.max values as if-then-else terms instead of forking on the order of the elements
 
 
 class SymCtx:
